@@ -419,7 +419,6 @@ func TestVerif(t *testing.T) {
 
 	var sb strings.Builder
 	sb.WriteString("From Coq Require Import List NArith String.\nFrom MM Require Import Lib.Bytes Model.Socks.\nImport ListNotations.\nLocal Open Scope string_scope.\n")
-	sb.WriteString("Definition cases : list scase := \n" + policy.CoqListNL(h.coq) + ".\n")
-	sb.WriteString("Definition M := Eval vm_compute in mismatches cases.\nPrint M.\n")
+	sb.WriteString(policy.ChunkedCases("cases", "scase", "mismatches_from", h.coq, 1500))
 	c.WriteCasesV("cases.v", sb.String())
 }
